@@ -66,7 +66,7 @@ def _wsl(prog, rep):
         raise AnchorMissing("wrap_single_line: expected one fast-path push")
     pb = pushes[0]
     val = prog.simp(s.call_args(pb)[1], body)
-    want = ("call", "From::from", (("call", "str::trim_end_matches", (LINE, SP)),))
+    want = ("adt", "std::borrow::Cow", "Borrowed", (("0", ("call", "str::trim_end_matches", (LINE, SP))),))
     r3.check(val == want, "trim", "the fast result is line.trim_end_matches(' ')", D(val),
              "the fast path returns %s; the general path trims exactly trailing ' ' (Word::from)" % D(val))
     np = 0
@@ -115,12 +115,12 @@ def _fill(prog, rep):
     fast = None
     for b in sorted(body.cfg.reach):
         t = body.blocks[b]["term"]
-        if t["k"] == "call" and t["dest"]["l"] == 0 and body.callee(b).name in ("From::from", "String::from", "ToOwned::to_owned", "str::to_string"):
+        if t["k"] == "call" and t["dest"]["l"] == 0 and body.callee(b).name in ("String::from",):
             fast = b
     if fast is None:
         raise AnchorMissing("fill: fast return not found")
     val = prog.simp(s.call_term(fast), body)
-    want = ("call", "From::from", (("call", "str::trim_end_matches", (TEXT, SP)),))
+    want = ("call", "String::from", (("call", "str::trim_end_matches", (TEXT, SP)),))
     r3.check(val == want, "trim", "fill's fast result is text.trim_end_matches(' ')", D(val),
              "fill's fast path returns %s; the general path trims exactly trailing ' '" % D(val))
     for path in models.entry_paths_to(prog, body, fast):
